@@ -28,6 +28,36 @@ fn crc32(data: &[u8]) -> u32 {
     !crc
 }
 
+pub fn obs_full(rt: &CoreRuntime, o: &mut Value) {
+    let hex: String = rt.memory.internal_slice().iter().map(|b| format!("{:02x}", b)).collect();
+    o["imem"] = json!(hex);
+    let ext = rt.memory.external_slice();
+    let mut buf: Vec<u8> = Vec::new();
+    buf.extend_from_slice(&ext[0xB8000..0xB8200]);
+    buf.extend_from_slice(&ext[0xB8F00..0xBA010]);
+    o["ram_crc"] = json!(crc32(&buf));
+    o["call_depth"] = json!(rt.state.call_depth());
+    o["call_sub_level"] = json!(rt.state.call_sub_level());
+    if let Some(kb) = rt.keyboard.as_ref() {
+        let ks = kb.snapshot_state();
+        let mut pressed = ks.pressed_keys.clone();
+        pressed.sort();
+        o["pressed"] = json!(pressed);
+        o["kol"] = json!(ks.kol);
+        o["koh"] = json!(ks.koh);
+        o["kil_latch"] = json!(ks.kil_latch);
+        let mut deb: Vec<(String, bool, u8, u8, u8)> = ks
+            .key_states
+            .iter()
+            .filter(|(_, v)| v.pressed || v.debounced || v.press_ticks > 0 || v.release_ticks > 0 || v.repeat_ticks > 0)
+            .map(|(k, v)| (k.clone(), v.debounced, v.press_ticks, v.release_ticks, v.repeat_ticks))
+            .collect();
+        deb.sort();
+        o["key_states"] = json!(deb);
+    }
+    o["key_irq_latched"] = json!(rt.timer.key_irq_latched);
+}
+
 pub fn obs(rt: &CoreRuntime, lcd: bool) -> Value {
     let st = &rt.state;
     let s = st.get_reg(RegName::S);
@@ -75,6 +105,9 @@ fn configure(rt: &mut CoreRuntime, v: &Value) {
     if v.get("rom_ro").and_then(|b| b.as_bool()).unwrap_or(false) {
         rt.memory.set_readonly_ranges(vec![(0xC0000, 0xFFFFF)]);
     }
+    if v.get("bare").and_then(|b| b.as_bool()).unwrap_or(false) {
+        return; // fresh runtime with only the ROM inserted: everything else must come from the snapshot
+    }
     if let Some(t) = v.get("timer") {
         let en = t.get("enabled").and_then(|b| b.as_bool()).unwrap_or(false);
         let mti = t.get("mti").and_then(|x| x.as_i64()).unwrap_or(0) as i32;
@@ -100,90 +133,136 @@ fn configure(rt: &mut CoreRuntime, v: &Value) {
     }
 }
 
+/// Apply one script op; returns Some(error) when the run must stop (panic inside step).
+pub fn apply(rt: &mut CoreRuntime, op: &Value, lcd: bool, full: bool, out: &mut Vec<Value>) -> Option<String> {
+    let name = op.get(0).and_then(|n| n.as_str()).unwrap_or("");
+    let a1 = op.get(1).and_then(|n| n.as_u64()).unwrap_or(0);
+    let a2 = op.get(2).and_then(|n| n.as_u64()).unwrap_or(0);
+    match name {
+        "step" | "stepn" => {
+            let n = if name == "step" { 1 } else { a1 as usize };
+            let r = catch_unwind(AssertUnwindSafe(|| rt.step(n)));
+            let mut o = obs(rt, lcd);
+            if full {
+                obs_full(rt, &mut o);
+            }
+            match r {
+                Ok(Ok(())) => {}
+                Ok(Err(e)) => o["step_error"] = json!(e.to_string()),
+                Err(_) => {
+                    o["panic"] = json!(crate::last_panic());
+                    out.push(o);
+                    return Some("panic".into());
+                }
+            }
+            out.push(o);
+        }
+        "press" => {
+            if let Some(kb) = rt.keyboard.as_mut() {
+                kb.press_matrix_code(a1 as u8, &mut rt.memory);
+            }
+            out.push(json!({}));
+        }
+        "release" => {
+            if let Some(kb) = rt.keyboard.as_mut() {
+                kb.release_matrix_code(a1 as u8, &mut rt.memory);
+            }
+            out.push(json!({}));
+        }
+        "on" => {
+            if a1 != 0 {
+                rt.press_on_key()
+            } else {
+                rt.release_on_key()
+            }
+            out.push(json!({}));
+        }
+        "wimem" => {
+            let _ = rt.memory.store(IMEM + a1 as u32, 8, a2 as u32);
+            out.push(json!({}));
+        }
+        "imem_or" => {
+            let cur = rt.memory.read_internal_byte_silent(a1 as u32).unwrap_or(0) as u32;
+            let _ = rt.memory.store(IMEM + a1 as u32, 8, cur | a2 as u32);
+            out.push(json!({}));
+        }
+        "imem_and" => {
+            let cur = rt.memory.read_internal_byte_silent(a1 as u32).unwrap_or(0) as u32;
+            let _ = rt.memory.store(IMEM + a1 as u32, 8, cur & a2 as u32);
+            out.push(json!({}));
+        }
+        "wext" => {
+            let _ = rt.memory.store(a1 as u32, 8, a2 as u32);
+            out.push(json!({}));
+        }
+        "obs" => {
+            let mut o = obs(rt, lcd);
+            if full {
+                obs_full(rt, &mut o);
+            }
+            out.push(o)
+        }
+        "load_into" => {
+            let p = op.get(1).and_then(|n| n.as_str()).unwrap_or("/dev/null");
+            let r = catch_unwind(AssertUnwindSafe(|| rt.load_snapshot(std::path::Path::new(p))));
+            match r {
+                Ok(Ok(())) => out.push(json!({"loaded": p})),
+                Ok(Err(e)) => out.push(json!({"load_error": e.to_string()})),
+                Err(_) => out.push(json!({"load_error": format!("panic: {}", crate::last_panic())})),
+            }
+        }
+        "ld" => out.push(json!({"v": rt.memory.load(a1 as u32, a2 as u8)})),
+        "save" => {
+            let p = op.get(1).and_then(|n| n.as_str()).unwrap_or("/dev/null");
+            match rt.save_snapshot(std::path::Path::new(p)) {
+                Ok(()) => out.push(json!({"saved": p})),
+                Err(e) => out.push(json!({"save_error": e.to_string()})),
+            }
+        }
+        "load" => {
+            let p = op.get(1).and_then(|n| n.as_str()).unwrap_or("/dev/null");
+            let mut fresh = CoreRuntime::new();
+            match fresh.load_snapshot(std::path::Path::new(p)) {
+                Ok(()) => {
+                    *rt = fresh;
+                    out.push(json!({"loaded": p}));
+                }
+                Err(e) => out.push(json!({"load_error": e.to_string()})),
+            }
+        }
+        _ => out.push(json!({"bad_op": name})),
+    }
+    None
+}
+
+/// A runtime prepared from the scenario fields of `v` plus its optional "pre" ops (outputs discarded).
+pub fn build(v: &Value) -> CoreRuntime {
+    let mut rt = CoreRuntime::new();
+    configure(&mut rt, v);
+    if let Some(pre) = v.get("pre").and_then(|s| s.as_array()) {
+        let mut sink = Vec::new();
+        for op in pre {
+            if apply(&mut rt, op, false, false, &mut sink).is_some() {
+                break;
+            }
+        }
+    }
+    rt
+}
+
 pub fn main() {
     crate::run_lines(|v| {
         let mut rt = CoreRuntime::new();
         configure(&mut rt, &v);
         let lcd = v.get("obs_lcd").and_then(|b| b.as_bool()).unwrap_or(false);
+        let full = v.get("obs_full").and_then(|b| b.as_bool()).unwrap_or(false);
         let mut out: Vec<Value> = Vec::new();
         let mut error: Option<String> = None;
         if let Some(script) = v.get("script").and_then(|s| s.as_array()) {
             for op in script {
-                let name = op.get(0).and_then(|n| n.as_str()).unwrap_or("");
-                let a1 = op.get(1).and_then(|n| n.as_u64()).unwrap_or(0);
-                let a2 = op.get(2).and_then(|n| n.as_u64()).unwrap_or(0);
-                match name {
-                    "step" | "stepn" => {
-                        let n = if name == "step" { 1 } else { a1 as usize };
-                        let r = catch_unwind(AssertUnwindSafe(|| rt.step(n)));
-                        let mut o = obs(&rt, lcd);
-                        match r {
-                            Ok(Ok(())) => {}
-                            Ok(Err(e)) => o["step_error"] = json!(e.to_string()),
-                            Err(_) => {
-                                o["panic"] = json!(crate::last_panic());
-                                out.push(o);
-                                error = Some("panic".into());
-                                break;
-                            }
-                        }
-                        out.push(o);
-                    }
-                    "press" => {
-                        if let Some(kb) = rt.keyboard.as_mut() {
-                            kb.press_matrix_code(a1 as u8, &mut rt.memory);
-                        }
-                        out.push(json!({}));
-                    }
-                    "release" => {
-                        if let Some(kb) = rt.keyboard.as_mut() {
-                            kb.release_matrix_code(a1 as u8, &mut rt.memory);
-                        }
-                        out.push(json!({}));
-                    }
-                    "on" => {
-                        if a1 != 0 { rt.press_on_key() } else { rt.release_on_key() }
-                        out.push(json!({}));
-                    }
-                    "wimem" => {
-                        let _ = rt.memory.store(IMEM + a1 as u32, 8, a2 as u32);
-                        out.push(json!({}));
-                    }
-                    "imem_or" => {
-                        let cur = rt.memory.read_internal_byte_silent(a1 as u32).unwrap_or(0) as u32;
-                        let _ = rt.memory.store(IMEM + a1 as u32, 8, cur | a2 as u32);
-                        out.push(json!({}));
-                    }
-                    "imem_and" => {
-                        let cur = rt.memory.read_internal_byte_silent(a1 as u32).unwrap_or(0) as u32;
-                        let _ = rt.memory.store(IMEM + a1 as u32, 8, cur & a2 as u32);
-                        out.push(json!({}));
-                    }
-                    "wext" => {
-                        let _ = rt.memory.store(a1 as u32, 8, a2 as u32);
-                        out.push(json!({}));
-                    }
-                    "obs" => out.push(obs(&rt, lcd)),
-                    "ld" => out.push(json!({"v": rt.memory.load(a1 as u32, a2 as u8)})),
-                    "save" => {
-                        let p = op.get(1).and_then(|n| n.as_str()).unwrap_or("/dev/null");
-                        match rt.save_snapshot(std::path::Path::new(p)) {
-                            Ok(()) => out.push(json!({"saved": p})),
-                            Err(e) => out.push(json!({"save_error": e.to_string()})),
-                        }
-                    }
-                    "load" => {
-                        let p = op.get(1).and_then(|n| n.as_str()).unwrap_or("/dev/null");
-                        let mut fresh = CoreRuntime::new();
-                        match fresh.load_snapshot(std::path::Path::new(p)) {
-                            Ok(()) => {
-                                rt = fresh;
-                                out.push(json!({"loaded": p}));
-                            }
-                            Err(e) => out.push(json!({"load_error": e.to_string()})),
-                        }
-                    }
-                    _ => out.push(json!({"bad_op": name})),
+                if let Some(e) = apply(&mut rt, op, lcd, full, &mut out) {
+                    error = Some(e);
+                    break;
                 }
             }
         }
